@@ -60,6 +60,7 @@ type Result struct {
 	CUs        int               `json:"cus"`
 	Traces     map[string][]*Ev  `json:"traces,omitempty"`
 	Features   []string          `json:"features,omitempty"`
+	ABIFlags   []string          `json:"abi_flags,omitempty"`
 	KernelInfo []map[string]any  `json:"kernel_info,omitempty"`
 }
 
@@ -85,6 +86,9 @@ func childMain() {
 	p := buildPlatform(cs.Plat)
 	col := newCollector(cs.Full)
 	col.cdna3 = cs.Plat.Arch == "cdna3" || cs.Plat.GPUType == "mi300a"
+	if cs.Full && cs.Plat.Timing {
+		col.journal, _ = os.Create("journal.txt")
+	}
 	ncu := 0
 	for _, comp := range p.Sim.Components() {
 		switch c := comp.(type) {
@@ -96,6 +100,7 @@ func childMain() {
 			ncu++
 		}
 	}
+	installWatch(p)
 	res := &Result{CUs: ncu}
 	done := make(chan struct{})
 	go func() {
@@ -137,6 +142,7 @@ loop:
 	res.Insts = col.total
 	res.Opcodes = col.opcodes
 	res.Launches = len(col.launches)
+	res.ABIFlags = col.abiFlags()
 	if cs.Full {
 		res.Traces = col.fullTraces()
 	}
@@ -200,6 +206,10 @@ func runGenerated(p *plat.Platform, cs *Case, res *Result) {
 	progress.Add(1)
 	var outs []driver.Ptr
 	for i, k := range prog.Kernels {
+		if k.OutTo >= 0 {
+			outs = append(outs, outs[k.OutTo])
+			continue
+		}
 		size := k.L.slots() * k.OStr
 		o := d.AllocateMemory(ctx, uint64(size))
 		fill := make([]byte, size)
